@@ -648,7 +648,15 @@ func (t *Tree) Compile(file string, args []string, out io.Writer) (err error) {
 	}
 	/* sort imports to satisfy gofmt, and import a package only once when the
 	   grammar asks for one that the generated code imports itself */
-	slices.Sort(t.Imports)
+	slices.SortFunc(t.Imports, func(a, b string) int {
+		/* gofmt orders by import path, then by name; entries are "path" or "path=name" */
+		pathA, nameA, _ := strings.Cut(a, "=")
+		pathB, nameB, _ := strings.Cut(b, "=")
+		if c := strings.Compare(pathA, pathB); c != 0 {
+			return c
+		}
+		return strings.Compare(nameA, nameB)
+	})
 	t.Imports = slices.Compact(t.Imports)
 
 	/* second pass */
